@@ -53,6 +53,33 @@ Theorem C06_invariant_step :
 Proof. exact ghandle_inv. Qed.
 Print Assumptions C06_invariant_step.
 
+(* named consequences.  A "continuation" is a sentence declaring itself fragment k >= 2 of a
+   multi-fragment message.  Duplicated, lost-predecessor and reordered fragments: *)
+Theorem C06_wrong_number_rejected :
+  forall c q st s d, data_fits c s -> is_continuation s -> s_fragment_number s <> p_fn st + 1 ->
+    handle c q st s d = (st, Err ENmea).
+Proof. exact wrong_number_rejected. Qed.
+Print Assumptions C06_wrong_number_rejected.
+
+(* id-mismatched fragments: *)
+Theorem C06_wrong_id_rejected :
+  forall c q st s d, data_fits c s -> is_continuation s -> s_message_id s <> p_id st ->
+    handle c q st s d = (st, Err ENmea).
+Proof. exact wrong_id_rejected. Qed.
+Print Assumptions C06_wrong_id_rejected.
+
+(* orphaned and stale fragments (no group open: fresh parser, or the group was delivered): *)
+Theorem C06_orphan_rejected :
+  forall c q st s d, data_fits c s -> is_continuation s -> p_fn st = 0 -> handle c q st s d = (st, Err ENmea).
+Proof. exact orphan_rejected. Qed.
+Print Assumptions C06_orphan_rejected.
+
+Theorem C06_delivery_closes_group :
+  forall c q st s d st' o, data_fits c s -> classify c st s = FinalFragment -> handle c q st s d = (st', o) ->
+    p_fn st' = 0 /\ p_data st' = [].
+Proof. exact delivery_closes_group. Qed.
+Print Assumptions C06_delivery_closes_group.
+
 (* non-vacuity: the two-fragment test vector of the repository delivers, and a stale fragment 2
    afterwards is rejected *)
 Example C06_nonvacuous :
